@@ -5,7 +5,7 @@ package influxql
 // inserting a comment flanked by whitespace there, never changes the AST.
 // Bound: the statements listed below (one or more per statement kind and per
 // place where the parser looks at raw runes or raw tokens) x every gap that
-// contains whitespace x 7 replacements. Labelled bounded; never counted as proved.
+// contains whitespace x 9 replacements (incl. a 40-space run and a comment containing a comment opener), and every ordered pair of corpus statements in one query. Labelled bounded; never counted as proved.
 
 import (
 	"fmt"
@@ -50,7 +50,7 @@ func c16gaps(s string) [][2]int {
 }
 
 func TestZZBoundedC16(t *testing.T) {
-	fmt.Println("BOUNDED-BOUND: 48 statements covering every statement family and every raw-rune / raw-token site x every whitespace gap x {tab, LF, CR, CRLF, two spaces, block comment, line comment}")
+	fmt.Println("BOUNDED-BOUND: 49 statements covering every statement family and every raw-rune / raw-token site x every whitespace gap x {tab, LF, CR, CRLF, two spaces, block comment, line comment, 40 spaces, comment containing a comment opener}; every ordered pair of statements in one query, each compared with its parse alone")
 	corpus := []string{
 		`SELECT mean(value) FROM cpu WHERE host = 'a' AND time > now() - 1h GROUP BY time(5m), host fill(none) ORDER BY time DESC LIMIT 5 OFFSET 2 SLIMIT 3 SOFFSET 1 tz('UTC')`,
 		`SELECT value INTO db1.rp1.out FROM db0.rp0.cpu WHERE value > 1.5`,
@@ -70,6 +70,7 @@ func TestZZBoundedC16(t *testing.T) {
 		`SHOW TAG KEYS ON db FROM cpu WHERE host = 'a'`,
 		`SHOW TAG VALUES ON db FROM cpu WITH KEY IN ( host , region ) WHERE host = 'a'`,
 		`SHOW TAG VALUES WITH KEY =~ /ho.*/`,
+		`SHOW TAG VALUES WITH KEY IN ( a , b , c )`,
 		`SHOW FIELD KEYS ON db FROM cpu`,
 		`SHOW RETENTION POLICIES ON db`,
 		`SHOW SERIES CARDINALITY ON db`,
@@ -93,7 +94,8 @@ func TestZZBoundedC16(t *testing.T) {
 		`EXPLAIN ANALYZE SELECT value FROM cpu`,
 		`SELECT value FROM cpu ; SHOW DATABASES ; ; DROP SHARD 1 ;`,
 	}
-	repl := map[string]string{"tab": "\t", "lf": "\n", "cr": "\r", "crlf": "\r\n", "two-spaces": "  ", "block-comment": " /* c */ ", "line-comment": " -- c\n"}
+	repl := map[string]string{"tab": "\t", "lf": "\n", "cr": "\r", "crlf": "\r\n", "two-spaces": "  ", "block-comment": " /* c */ ", "line-comment": " -- c\n",
+		"long-spaces": strings.Repeat(" ", 40), "comment-with-opener": " /* a /* b */ "}
 	total, accepted := 0, 0
 	fails := map[string]int{}
 	first := map[string]string{}
@@ -127,6 +129,12 @@ func TestZZBoundedC16(t *testing.T) {
 		}
 		for _, g := range c16gaps(base) {
 			for name, r := range repl {
+				if name == "comment-with-opener" {
+					// only where a plain comment is accepted (the raw-rune look-ahead sites are finding F-C16-1)
+					if _, err := ParseQuery(base[:g[0]] + repl["block-comment"] + base[g[1]:]); err != nil {
+						continue
+					}
+				}
 				text := base[:g[0]] + r + base[g[1]:]
 				total++
 				q1, err1 := ParseQuery(text)
@@ -158,6 +166,41 @@ func TestZZBoundedC16(t *testing.T) {
 				if first[key] == "" {
 					first[key] = fmt.Sprintf("%q", text)
 				}
+			}
+		}
+	}
+	// every ordered pair of corpus statements in one query: each is parsed exactly as it is alone
+	var singles []string
+	for _, base := range corpus {
+		if !strings.Contains(base, ";") {
+			if _, err := ParseQuery(base); err == nil {
+				singles = append(singles, base)
+			}
+		}
+	}
+	for _, a := range singles {
+		qa, _ := ParseQuery(a)
+		for _, b := range singles {
+			qb, _ := ParseQuery(b)
+			total++
+			q, err := ParseQuery(a + " ; " + b)
+			key := ""
+			switch {
+			case err != nil:
+				key = "pair:rejected:" + strings.Fields(a)[0]
+			case len(q.Statements) != 2:
+				key = "pair:statement-count:" + strings.Fields(a)[0]
+			case !reflect.DeepEqual(q.Statements[0], qa.Statements[0]) && q.Statements[0].String() != qa.Statements[0].String():
+				key = "pair:first-differs-from-alone:" + strings.Fields(a)[0]
+			case !reflect.DeepEqual(q.Statements[1], qb.Statements[0]) && q.Statements[1].String() != qb.Statements[0].String():
+				key = "pair:second-differs-from-alone:" + strings.Fields(b)[0]
+			default:
+				accepted++
+				continue
+			}
+			fails[key]++
+			if first[key] == "" {
+				first[key] = fmt.Sprintf("%q", a+" ; "+b)
 			}
 		}
 	}
